@@ -361,8 +361,14 @@ func (h *handler) handleMessage(ctx context.Context, msg hwebsocket.Msg, respond
 	return nil
 }
 
+// disconnect asks the main loop to end the connection. It never blocks: the
+// main loop itself reports failures here, and it is the only one that drains
+// the channel. A cause that does not fit is dropped, the first one is enough.
 func (h *handler) disconnect(err error) {
-	h.disconnectChan <- err
+	select {
+	case h.disconnectChan <- err:
+	default:
+	}
 }
 
 func (h *handler) handleDisconnect(err error) {
